@@ -207,11 +207,13 @@ def finish(prop, mod, tier, seed, specs, results, violation, t0, extra_cov=None)
     if nonrepro:
         print("HARNESS-ERROR: counterexample(s) did not reproduce concretely:", json.dumps(nonrepro[0])[:2000])
         return EXIT_HARNESS
-    if missing:
+    if missing and tasks_done >= len(specs):
         print("HARNESS-ERROR: coverage obligations never hit (vacuity guard):", missing)
         return EXIT_HARNESS
     if tasks_done < len(specs):
-        print(f"note: budget ended with {len(specs) - tasks_done} task(s) not run; run is not exhaustive")
+        # the wall-clock budget cut the run: what was explored held; the evidence says exhaustive=false and lists the
+        # obligations that the tasks which did run have not reached (the vacuity guard is for complete runs)
+        print(f"note: budget ended with {len(specs) - tasks_done} task(s) not run; run is not exhaustive" + (f"; obligations not reached: {missing}" if missing else ""))
     return EXIT_OK
 
 
